@@ -312,8 +312,38 @@ func (x *Exec) globalInit(st *State, g *ssa.Global) Term {
 		decl += fmt.Sprintf("\n(assert (not (= %s inil)))\n(assert (forall ((e Iface)) (! (= (wraps %s e) false) :pattern ((wraps %s e)))))", name, name, name)
 		x.errSentinels = appendUnique(x.errSentinels, name)
 	}
+	// string tables initialised by constant composite literals: length and contents are known
+	if sl, ok := elem.Underlying().(*types.Slice); ok && isString(sl.Elem()) {
+		if tbl, ok := x.w.stringTable(g.Pkg.Pkg.Path(), g.Name()); ok && x.globalStored(g) {
+			hs := x.heapName(sl.Elem())
+			x.heapDecl(sl.Elem())
+			decl += fmt.Sprintf("\n(assert (and (> (sbase %s) 0) (= (soff %s) #x0000000000000000) (= (slen %s) %s) (= (scap %s) %s) (select alloc_init (sbase %s))))", name, name, name, bv64(uint64(len(tbl))).S, name, bv64(uint64(len(tbl))).S, name)
+			for i, s := range tbl {
+				decl += fmt.Sprintf("\n(assert (= (select (select %s_init (sbase %s)) %s) %s))", hs, name, bv64(uint64(i)).S, x.strLit(s).S)
+			}
+			x.assumeNote("package-level string tables are never written after initialisation (checked: no store to them outside init)")
+		}
+	}
 	x.sc.Decl("glob:"+name, decl)
 	return t
+}
+
+// globalStored reports whether the global is only assigned in the package initialiser.
+func (x *Exec) globalStored(g *ssa.Global) bool {
+	for _, m := range g.Pkg.Members {
+		fn, ok := m.(*ssa.Function)
+		if !ok || fn.Name() == "init" {
+			continue
+		}
+		for _, b := range fn.Blocks {
+			for _, ins := range b.Instrs {
+				if st, ok := ins.(*ssa.Store); ok && st.Addr == ssa.Value(g) {
+					return false
+				}
+			}
+		}
+	}
+	return true
 }
 
 var errorType = types.Universe.Lookup("error").Type()
